@@ -153,6 +153,7 @@ impl Future for Pending {
                     fragments: plan.fragments.into_iter().collect(),
                     end: plan.end,
                     end_delay_ns: plan.end_delay_ns,
+                    tail: plan.tail,
                     next_at: None,
                     deadline,
                     done: false,
@@ -199,6 +200,7 @@ pub struct Body {
     fragments: std::collections::VecDeque<(u64, Vec<u8>)>,
     end: BodyEnd,
     end_delay_ns: u64,
+    tail: Option<(usize, u64)>,
     next_at: Option<u64>,
     deadline: Option<u64>,
     done: bool,
@@ -210,6 +212,14 @@ impl Body {
         simkit::exec::yield_point();
         if self.done {
             return Poll::Ready(None);
+        }
+        if self.fragments.is_empty() {
+            if let Some((size, count)) = self.tail {
+                if count > 0 {
+                    self.tail = Some((size, count - 1));
+                    self.fragments.push_back((0, vec![0xEE; size]));
+                }
+            }
         }
         let now = simkit::now_ns();
         let delay = match self.fragments.front() {
